@@ -42,13 +42,15 @@ type Clause struct {
 }
 
 type LoopSpec struct {
-	Var        string // controlling variable (phi name) used to find the loop; ordinal is the fallback
-	Ordinal    int
-	Unroll     int
-	Invariants []Clause
-	Modifies   []string
-	Decreases  *Clause
-	Line       int
+	Var         string // controlling variable (phi name) used to find the loop; ordinal is the fallback
+	Ordinal     int
+	Unroll      int
+	Invariants  []Clause
+	Modifies    []string
+	Decreases   *Clause
+	Ghosts      []Clause // ghost name = expr: evaluated when the loop is entered, constant during the loop
+	ExitEnsures []Clause // must hold when the loop is left through its condition
+	Line        int
 }
 
 type Contract struct {
@@ -110,7 +112,7 @@ type ContractFile struct {
 	Lemmas    []*Lemma
 }
 
-var kwRe = regexp.MustCompile(`^(func|mode|inline|trusted|param|let|requires|ensures|assigns|loop|invariant|modifies|decreases|rel|chain|assume_at_call|pathkey|spec|lemma|opt|captures|closure_inv|locals|yield_requires)\b`)
+var kwRe = regexp.MustCompile(`^(func|mode|inline|trusted|param|let|requires|ensures|assigns|loop|invariant|modifies|decreases|rel|chain|assume_at_call|pathkey|spec|lemma|opt|captures|closure_inv|locals|yield_requires|ghost|exit_ensures)\b`)
 
 var unknownDirRe = regexp.MustCompile(`^[a-z_]+\s+[A-Za-z_(\[!*"0-9]`)
 
@@ -431,6 +433,34 @@ func ParseContracts(path string) (*ContractFile, error) {
 					}
 				}
 				cur.Loops[n] = curLoop
+			case "ghost":
+				if curLoop == nil {
+					return nil, fail("ghost outside loop")
+				}
+				i := strings.Index(rest, "=")
+				if i < 0 {
+					return nil, fail("ghost <name> = <expr>")
+				}
+				e, err := parse(strings.TrimSpace(rest[i+1:]))
+				if err != nil {
+					return nil, err
+				}
+				curLoop.Ghosts = append(curLoop.Ghosts, Clause{Label: strings.TrimSpace(rest[:i]), Src: rest, Expr: e, Line: l.line})
+			case "exit_ensures":
+				if curLoop == nil {
+					return nil, fail("exit_ensures outside loop")
+				}
+				label := ""
+				if strings.HasPrefix(rest, "[") {
+					j := strings.Index(rest, "]")
+					label = rest[1:j]
+					rest = strings.TrimSpace(rest[j+1:])
+				}
+				e, err := parse(rest)
+				if err != nil {
+					return nil, err
+				}
+				curLoop.ExitEnsures = append(curLoop.ExitEnsures, Clause{Label: label, Src: rest, Expr: e, Line: l.line})
 			case "modifies":
 				if curLoop == nil {
 					return nil, fail("modifies outside loop")
